@@ -420,7 +420,8 @@ def _packer(chk, repo, folder: Folder, cls, signed: bool):
             chk.unk("R3", f"{DT}:{name}.unpack | padding", unpack.loc(calls[0]), f"padding shape not recognised: {text}")
         return
     pad, count = arg.right.left, arg.right.right
-    if isinstance(count, (ast.Constant, ast.IfExp)) or "size" in src(pad):
+    is_fill = lambda e: isinstance(e, ast.IfExp) or (isinstance(e, ast.Constant) and isinstance(e.value, bytes))  # noqa
+    if is_fill(count) and not is_fill(pad):
         pad, count = count, pad
     chk.check(src(count) in ("super().size - self.size",), "R3", f"{DT}:{name}.unpack | pad count", unpack.loc(calls[0]),
               f"pad count is {src(count)}, expected super().size - self.size (so that only a buffer of exactly self.size "
